@@ -193,6 +193,50 @@ def fixed_corpus():
     return out
 
 
+def randomgen_corpus():
+    """Small-candidate-space designs aimed at the combinatoric sampler's special cases."""
+    out = []
+    add = out.append
+    G = within('G', ['A', 'B'], preds=(('table', [['a0', 'b0'], ['a1', 'b1']]), 'else'))
+    GC = within('G', ['A', 'C'], preds=(('table', [['a0', 'c0'], ['a1', 'c0'], ['a1', 'c1']]), 'else'))
+    # Exclude on a within-trial derived level whose sources are not all crossed
+    add(D([A2, B2, G], cross('ABG', 'A', [['Exclude', 'G', 'g0']], rcc=False)))
+    add(D([A2, B3, G], cross('ABG', 'A', [['Exclude', 'G', 'g1']], rcc=False)))
+    add(D([A2, B2, C2, G], cross('ABCG', 'C', [['Exclude', 'G', 'g0']])))
+    # preamble (transition in the crossing) together with Exclude on a basic level
+    add(D([A3, B2, TRA], cross('ABR', 'R', [['Exclude', 'B', 'b1']])))
+    add(D([A2, B3, transition('S', 'B')], cross('ABS', 'S', [['Exclude', 'A', 'a1']], rcc=False)))
+    add(D([A3, B2, TRA], cross('ABR', 'AR', [['Exclude', 'A', 'a2']], rcc=False)))
+    # several crossings with different preambles / repeat mode
+    add(D([A2, B2, TRA], multi('ABR', ['R', 'B'], mode='repeat', alignment='parallel start')))
+    add(D([A2, B2, TRA], multi('ABR', ['AR', 'B'], mode='repeat', alignment='parallel start')))
+    add(D([A2, B2, TRA], multi('ABR', ['R', 'B'], mode='weight', alignment='parallel start')))
+    add(D([A2, B2, TRA], multi('ABR', ['R', 'B'], mode='repeat', alignment='post preamble')))
+    # leftover round + uncrossed independent factor with an Exclude
+    add(D([A2, B3], cross('AB', 'A', [['MinimumTrials', 3], ['Exclude', 'B', 'b2']], rcc=True)))
+    add(D([A2, B3], repeat(cross('AB', 'A', [['Exclude', 'B', 'b2']]), [['MinimumTrials', 3]])))
+    add(D([A3, B2], cross('AB', 'A', [['MinimumTrials', 4], ['Exclude', 'B', 'b1']])))
+    # crossed derived factor with uneven source completions, weighted by MinimumTrials
+    add(D([A2, C2, within('G', ['A', 'C'], preds=(('table', [['a0', 'c0']]), 'else'))], cross('ACG', 'G', [['MinimumTrials', 4]])))
+    add(D([A2, C3, GC], cross('ACG', 'G', [['MinimumTrials', 4]])))
+    add(D([AW, C2, within('G', ['A', 'C'], preds=(('table', [['a0', 'c0']]), 'else'))], cross('ACG', 'AG', [['MinimumTrials', 5]])))
+    add(D([AW, C2, within('G', ['A', 'C'], preds=(('table', [['a0', 'c0']]), 'else'))],
+          repeat(cross('ACG', 'AG'), [['MinimumTrials', 5]])))
+    add(D([AW, B2], repeat(cross('AB', 'A'), [['MinimumTrials', 5]])))
+    add(D([AW, B2], cross('AB', 'A', [['MinimumTrials', 8]])))
+    # wide window in the crossing (preamble of 2) with two basic factors
+    add(D([A2, B2, window('W', 'A', 3)], cross('ABW', 'W')))
+    add(D([A2, B2, window('W', 'A', 3)], cross('ABW', 'BW')))
+    add(D([A2, B2, window('W', 'A', 3, preds=(('first', 'a0'), 'else'))], cross('ABW', 'W')))
+    # nest with an uncrossed outer factor listed before the crossed one
+    add(D([A2, B2, C2], nest(cross('CA', 'A'), cross('B', 'B'))))
+    add(D([A2, B2, C2], nest(cross('CA', 'A'), cross('B', 'B', [['Pin', 0, 'B', 'b1']]))))
+    # LatinSquare with a partial last segment
+    add(D([A3, B3], cross('AB', 'A', [['LatinSquare', ['A', 'B']], ['MinimumTrials', 5]])))
+    add(D([A3, B3], cross('AB', 'A', [['LatinSquare', ['A', 'B']], ['MinimumTrials', 8]])))
+    return out
+
+
 # ---- seeded random descriptors -------------------------------------------------------------------------------------------
 
 def random_design(rnd, tmax=8):
@@ -286,7 +330,7 @@ def random_design(rnd, tmax=8):
 
 
 def designs(tier, seed):
-    out = fixed_corpus()
+    out = fixed_corpus() + randomgen_corpus()
     rnd = random.Random(seed * 7919 + 17)
     n = 400 if tier == 'thorough' else 40
     tmax = 12 if tier == 'thorough' else 8
